@@ -113,7 +113,9 @@ def _uses_30(kind):
 
 def _addl_cases(tier):
     # typed / untyped / forbidden additionalProperties next to one declared property
-    for k in K.ATOMS:
+    composite = [["array", k] for k in K.ATOMS] + [["union", "model_ref", "int"], ["union", "int", "model_ref"], ["union", "date", "model_ref"], ["nullable", "model_ref", "oneof"],
+                                                  ["nullable", "date", "t31"], ["array", ["array", "model_ref"]], ["array", ["union", "model_ref", "int"]]]
+    for k in list(K.ATOMS) + composite:
         comps = {}
         addl = K.schema(k, comps)
         doc = _model_doc([("p", "int")], [], comps=comps, addl=addl)
@@ -125,8 +127,13 @@ def _addl_cases(tier):
             insts.append({"cls": f"value+extra{i}", "value": {"p": 1, "k1": copy.deepcopy(v)}})
         if vals:
             insts.append({"cls": "absent+extra2", "value": {"k1": copy.deepcopy(vals[0]), "k 2": copy.deepcopy(vals[-1])}})
-        yield {"labels": [f"addl={k}"], "payload": {"doc": doc, "options": {}, "targets": [
-            {"component": "M", "key": f"addl({k})/opt", "instances": insts}]}}
+        yield {"labels": [f"addl={K.kstr(k)}"], "payload": {"doc": doc, "options": {}, "targets": [
+            {"component": "M", "key": f"addl({K.kstr(k)})/opt", "instances": insts}]}}
+        if not isinstance(k, str):
+            # the same value type on a model that declares NO property of its own (nothing else imports the member classes)
+            doc2 = _model_doc([], [], comps=copy.deepcopy(comps), addl=copy.deepcopy(addl))
+            yield {"labels": [f"addl={K.kstr(k)}", "only-additional"], "payload": {"doc": doc2, "options": {}, "targets": [
+                {"component": "M", "key": f"addl({K.kstr(k)})/only", "instances": [{"cls": i["cls"], "value": {kk: vv for kk, vv in i["value"].items() if kk != "p"}} for i in insts]}]}}
     for addl, name in ((True, "true"), (False, "false"), ({}, "empty")):
         doc = _model_doc([("p", "str")], ["p"], addl=addl)
         insts = _instances([("p", "str")], ["p"], extras_ok=addl is not False, extra_value={"n": [1, None]})
